@@ -92,6 +92,7 @@ class Ref:
         self.track_sessions = bool(getattr(cfg, "options", {}).get("track_sessions"))
         self.session = 0  # number of buffered sessions started (a session = contexts active .. all left)
         self.ops_in_session = 0
+        self.between_ops = 0  # operations issued while no context is active, since the last session ended
         self.cap_default = True
         self.handles = []  # dict(obj, path, kinds, attached)
         for r in cfg.objects:
@@ -192,8 +193,11 @@ class Ref:
             if t in ("enter", "enter_cls") and not active:
                 self.session += 1
                 self.ops_in_session = 0
+                self.between_ops = 0
             elif t == "op" and active:
                 self.ops_in_session += 1
+            elif t == "op":
+                self.between_ops += 1
         if t == "op":
             _, h, op, args = ev
             hd = self.handles[h]
@@ -405,7 +409,7 @@ class Ref:
             [None if b is None else model.canon_json(b) for b in self.buf],
             self.in_buf, self.changed_w, self.ext_after, self.disk_known, self.touched,
             self.obj_res, self.obj_depth, self.cls_depth, self.cap_stack, self.cap_default, self.ctx_stack, self.n_exits > 0, self.n_setcap,
-            (self.session, self.ops_in_session) if self.track_sessions else None,
+            (self.session, self.ops_in_session, self.between_ops) if self.track_sessions else None,
             [(h["obj"], h["path"], h["kinds"], h["attached"]) for h in self.handles],
         ))
 
